@@ -778,6 +778,14 @@ class Checker:
                 return
             self.ok('RESOLVE')
             kind, d, m, approx = r
+            if kind == 'fun' and env.fn is not None and d is env.fn and env.fn.ret_type is None \
+                    and env.fn.body is not None and not isinstance(env.fn.body, ast.Block):
+                # inference: the result type of an expression-bodied function without a declared
+                # return type cannot be inferred from a body that calls the function itself
+                self.bad('INFER', 'function %s has no declared return type but its body calls it' % d.name, e,
+                         function=str(d.name))
+            elif kind == 'fun' and env.fn is not None and env.fn.ret_type is None:
+                self.ok('INFER')
             if kind == 'fun':
                 mm = dict(m)
                 if d.type_parameters:
